@@ -27,7 +27,7 @@ E = 'ephemeralnet::'
 SHARED = (E + 'Node::', E + 'network::KeyManager::', E + 'KademliaTable::', E + 'ChunkStore::', E + 'network::ReputationManager::',
           E + 'network::SessionManager::', E + 'network::RelayClient::', E + 'network::SwarmCoordinator::', E + 'SwarmCoordinator::',
           E + 'network::NatTraversalManager::', E + 'crypto::CryptoManager::', E + 'Config::')
-ALIASES = {E + 'daemon::ControlServer::Impl::node_mutex_': 'node_mutex', 'local node_mutex in main': 'node_mutex'}
+ALIASES = {E + 'daemon::ControlServer::Impl::node_mutex_': 'node_mutex'}
 # transport plumbing: descriptors and ports read by loops that the owner wakes by closing them (frozen, one reason each)
 PLUMBING = {E + 'network::SessionManager::listen_socket_': 'listening descriptor closed by stop() to wake accept()',
             E + 'network::SessionManager::bound_port_': 'written once by start() before the accept thread exists',
@@ -51,7 +51,20 @@ def run(ck):
     mains = [f for f in P.by_q.get('main', []) if f.file.endswith('src/main.cpp')]
     if not mains:
         raise AnalysisBroken('daemon main() not found')
-    L = Locksets(P, aliases=ALIASES, shared_classes=SHARED, roots_extra=[('main (daemon serve loop)', mains[0], False)], skip_ctor_callees=True)
+    # the daemon's serve-loop mutex is a local of main handed by reference to the ControlServer (which stores the reference in
+    # Impl::node_mutex_): one lock, two names — found structurally, whatever the local is called
+    aliases = dict(ALIASES)
+    mf = mains[0]
+    for i in mf.walk():
+        nd = mf.nodes[i]
+        if nd['k'] in ('CXXConstructExpr', 'CXXTemporaryObjectExpr') and (nd.get('callee') or '').startswith('ephemeralnet::daemon::ControlServer::ControlServer'):
+            for a in mf.kids(i):
+                an = mf.nodes[mf.strip(a)]
+                if an['k'] == 'DeclRefExpr' and 'mutex' in (an.get('t') or '') and not an.get('g'):
+                    aliases['local %s in %s' % (an.get('n'), short(mf.q))] = 'node_mutex'
+    if len(aliases) < 2:
+        raise AnalysisBroken('the serve-loop mutex handed to the ControlServer was not found in main()')
+    L = Locksets(P, aliases=aliases, shared_classes=SHARED, roots_extra=[('main (daemon serve loop)', mains[0], False)], skip_ctor_callees=True)
     ck.floor('C36.roots', 'thread roots (std::thread entries + daemon main)', len(L.roots), 5)
     ck.extra['roots'] = {r: {'entry': short(v[0].q), 'self_concurrent': v[1], 'functions_reachable': len(L.must[r]),
                              'spawned_in': [short(f.q) for f, _n in L.spawns.get(r, [])]} for r, v in L.roots.items()}
